@@ -132,11 +132,14 @@ func Float(name string) float64 {
 }
 func FloatI(name string, i int) float64 { return Float(fmt.Sprintf("%s[%d]", name, i)) }
 func Floats(name string, n int) []float64 {
-	xs := make([]float64, n)
-	for i := range xs {
+	// two cells of spare capacity holding a sentinel (as in the engine): an in-place append by the
+	// code under test lands in the caller's backing array, which Freeze snapshots up to cap
+	xs := make([]float64, n+2)
+	for i := 0; i < n; i++ {
 		xs[i] = FloatI(name, i)
 	}
-	return xs
+	xs[n], xs[n+1] = -1234.5, -1234.5
+	return xs[:n]
 }
 func Int(name string) int {
 	v, _ := get(name)
